@@ -50,6 +50,57 @@ pub fn alphabet() -> Vec<Record> {
         .collect()
 }
 
+
+const ALL_KINDS: [LintKind; 10] = [
+    LintKind::Spelling,
+    LintKind::Capitalization,
+    LintKind::Style,
+    LintKind::Formatting,
+    LintKind::Repetition,
+    LintKind::Enhancement,
+    LintKind::Readability,
+    LintKind::WordChoice,
+    LintKind::Miscellaneous,
+    LintKind::Punctuation,
+];
+
+/// Texts whose token streams serve as captured contexts.
+fn real_context_texts(tier: Tier) -> Vec<String> {
+    // compile-time reminder: a new LintKind variant must be added to ALL_KINDS
+    let _ = |k: LintKind| match k {
+        LintKind::Spelling | LintKind::Capitalization | LintKind::Style | LintKind::Formatting | LintKind::Repetition | LintKind::Enhancement | LintKind::Readability | LintKind::WordChoice | LintKind::Miscellaneous | LintKind::Punctuation => (),
+    };
+    let mut v: Vec<String> = vec![
+        "".into(),
+        "She said \u{201c}teh\u{201d} (twice) \u{2014} at 3rd & Main, e.g. on 1st St.; see https://a.example/x?y=1 or mail joe@example.com.\n\nNext paragraph:\t$5 0x1F 1990s it's [a-z] #tag @me 50% \u{2026} !".into(),
+        "It cost 1e999 dollars.".into(),
+        format!("The number {} is big.", "9".repeat(400)),
+        "Values 1e308 1e309 1.7976931348623157e308 1.7976931348623159e308 5e-324 2e-324 0.0 0 00 1e-400.".into(),
+    ];
+    // decimal literals of every length
+    for n in 1..=40usize {
+        v.push(format!("Pi is {} or so.", &"3.14159265358979323846264338327950288419716939937510"[..n + 1]));
+        v.push(format!("Count {} things.", &"1234567890123456789012345678901234567890"[..n]));
+    }
+    // shortest-round-trip renderings: the values a lexer meets when a program printed them
+    let n_max = tier.pick(3000, 60000) as u64;
+    for n in 1..=n_max {
+        v.push(format!("Ratio {:?} here.", 1.0 / n as f64));
+        v.push(format!("Angle {:?} there.", n as f64 * std::f64::consts::PI));
+        v.push(format!("Tiny {:e} value.", (n as f64).powi(-17)));
+    }
+    // three-digit mantissa, every decimal exponent
+    for m in (100..1000).step_by(tier.pick(7, 1)) {
+        for e in -330..=310 {
+            if tier == Tier::Quick && e % 5 != 0 {
+                continue;
+            }
+            v.push(format!("Mass {}.{}e{} units.", m / 100, m % 100, e));
+        }
+    }
+    v
+}
+
 fn ref_summary(records: &[Record]) -> (u32, Vec<(String, u32)>, Vec<(String, u32)>) {
     let mut total = 0;
     let mut per_kind: std::collections::BTreeMap<String, u32> = Default::default();
@@ -224,6 +275,81 @@ pub fn run(tier: Tier) -> i32 {
         }
         traces += long_traces;
         report.set("long_logs", long_traces);
+    }
+
+
+    // real contexts: what a front-end captures is the token stream of the flagged text, so the
+    // records hold every token kind the lexer can produce — numbers carry their parsed f64 value.
+    // Every LintKind, every text of a structured family (all token kinds, decimal literals of
+    // every length, shortest-round-trip renderings of 1/n and n*pi, literals beyond f64's range).
+    {
+        let texts = real_context_texts(tier);
+        let uuid = |n: u128| uuid::Uuid::from_u128(0x7777_0000_0000_0000_0000_0000_0000_0000 + n);
+        let ntexts = texts.len() as u64;
+        let res = crate::pool::par_chunks(ntexts, 64, ncpu(), |s, e| {
+            let mut viols: Vec<Violation> = vec![];
+            let mut kinds_seen: BTreeSet<String> = BTreeSet::new();
+            for i in s..e {
+                let text = &texts[i as usize];
+                let doc = harper_core::Document::new_plain_english_curated(text);
+                let context: Vec<FatStringToken> = doc.fat_string_tokens().collect();
+                for t in &context {
+                    kinds_seen.insert(format!("{:?}", t.kind).split(['(', ' ', '{']).next().unwrap_or("").to_string());
+                }
+                let recs: Vec<Record> = ALL_KINDS
+                    .iter()
+                    .enumerate()
+                    .map(|(k, kind)| Record { kind: RecordKind::Lint { kind: *kind, context: context.clone() }, when: 1_700_000_000 + k as i64, uuid: uuid(i as u128 * 16 + k as u128) })
+                    .collect();
+                // all ten in one session, and cut into three
+                for cut in [(recs.len(), recs.len()), (3, 7)] {
+                    let problem = match catch(|| check_history(&recs, cut)) {
+                        Ok(p) => p,
+                        Err(p) => Some(("panic".into(), json!({"msg": p.msg}))),
+                    };
+                    if let Some((sig, detail)) = problem {
+                        // name the cause: which token does not survive on its own?
+                        let mut cause = "other".to_string();
+                        for t in &context {
+                            let one = serde_json::to_string(t).ok().and_then(|j| serde_json::from_str::<FatStringToken>(&j).ok());
+                            if one.as_ref() != Some(t) {
+                                cause = match &t.kind {
+                                    TokenKind::Number(n) if !n.value.0.is_finite() => "number-beyond-f64-range".into(),
+                                    TokenKind::Number(_) => "number-value-changes".into(),
+                                    k => format!("token:{}", format!("{k:?}").split(['(', ' ', '{']).next().unwrap_or("")),
+                                };
+                                break;
+                            }
+                        }
+                        if cause == "other" {
+                            // the tokens survive on their own: which kind of lint does not?
+                            for kind in ALL_KINDS {
+                                let one = serde_json::to_string(&kind).ok().and_then(|j| serde_json::from_str::<LintKind>(&j).ok());
+                                if one != Some(kind) {
+                                    cause = format!("lint-kind:{kind:?}");
+                                    break;
+                                }
+                            }
+                        }
+                        let d = detail.to_string();
+                        viols.push(Violation { sig: format!("real-context:{sig}:{cause}"), case: json!({"engine":"E2","object":"stats-log","real_context_text": text, "sessions_cut_at": [cut.0, cut.1]}), detail: json!({"detail": d.chars().take(400).collect::<String>()}) });
+                        break;
+                    }
+                }
+            }
+            (viols, kinds_seen)
+        });
+        let mut kinds_seen: BTreeSet<String> = BTreeSet::new();
+        for (vs, ks) in res {
+            kinds_seen.extend(ks);
+            for v in vs {
+                report.violation(v);
+            }
+        }
+        traces += 2 * ntexts;
+        transitions += 4 * ntexts;
+        report.set("real_context_texts", ntexts);
+        report.set("real_context_token_kinds", json!(kinds_seen.into_iter().collect::<Vec<_>>()));
     }
 
     // wasm path: records enter through apply_suggestion / import_stats_file
@@ -449,6 +575,24 @@ pub fn replay(case: &Value) -> Vec<(String, Value)> {
             Ok(Ok(Some(p))) => vec![p],
             Ok(Err(e)) => vec![(format!("machinery: {e}"), json!({}))],
             Err(p) => vec![("server:panic".into(), json!({"msg": p.msg}))],
+        };
+    }
+    if let Some(text) = case["real_context_text"].as_str() {
+        let doc = harper_core::Document::new_plain_english_curated(text);
+        let context: Vec<FatStringToken> = doc.fat_string_tokens().collect();
+        let recs: Vec<Record> = ALL_KINDS
+            .iter()
+            .enumerate()
+            .map(|(k, kind)| Record { kind: RecordKind::Lint { kind: *kind, context: context.clone() }, when: 1_700_000_000 + k as i64, uuid: uuid::Uuid::from_u128(0x7777_0000_0000_0000_0000_0000_0000_0000 + k as u128) })
+            .collect();
+        let cut = case["sessions_cut_at"].as_array().map(|a| (a[0].as_u64().unwrap_or(0) as usize, a[1].as_u64().unwrap_or(0) as usize)).unwrap_or((10, 10));
+        if cut.0 > cut.1 || cut.1 > recs.len() {
+            return vec![("bad-replay-file".into(), json!({}))];
+        }
+        return match catch(|| check_history(&recs, cut)) {
+            Ok(Some((sig, d))) => vec![(format!("real-context:{sig}"), d)],
+            Ok(None) => vec![],
+            Err(p) => vec![("real-context:panic".into(), json!({"msg": p.msg}))],
         };
     }
     let idx: Vec<usize> = case["records"].as_array().map(|a| a.iter().filter_map(|x| x.as_u64().map(|v| v as usize)).collect()).unwrap_or_default();
